@@ -166,11 +166,21 @@ func c15Program(k int, xs, ys jast.Node) (jast.Node, string) {
 			call("count", call("distinct", call("append", &jast.Array{Items: []jast.Node{
 				&jast.Array{Items: []jast.Node{f}}, &jast.Array{Items: []jast.Node{g}}, &jast.Array{Items: []jast.Node{f}}, &jast.Array{},
 				obj("k", v("sum")), obj("k", v("count")), obj("k", v("sum"))}}, xs)))}}), "distinct-functions"
+	case 15:
+		// the argument is still what it was after the call (seen through a
+		// variable that holds it, next to the result)
+		x := v("x")
+		return &jast.Block{Exprs: []jast.Node{&jast.Assign{Name: "x", Val: xs}, &jast.Array{Items: []jast.Node{
+			&jast.Array{Items: []jast.Node{call("reverse", x)}}, &jast.Array{Items: []jast.Node{x}},
+			&jast.Array{Items: []jast.Node{call("zip", x, call("reverse", x))}}, &jast.Array{Items: []jast.Node{call("append", x, call("reverse", x))}},
+			&jast.Array{Items: []jast.Node{call("distinct", x)}}, &jast.Array{Items: []jast.Node{call("append", x, ys)}},
+			&jast.Array{Items: []jast.Node{call("filter", x, lam([]string{"e", "i"}, &jast.Bin{Op: ">", L: v("i"), R: &jast.Num{V: 0}}))}},
+			&jast.Array{Items: []jast.Node{call("count", call("shuffle", x))}}, &jast.Array{Items: []jast.Node{x}}}}}}, "argument-unchanged"
 	}
 	return call("count", call("shuffle", xs)), "shuffle-count"
 }
 
-func c15NProg() int { return len(c15Callbacks) + 2*len(c15Preds) + 2*len(c15Folds) + 16 }
+func c15NProg() int { return len(c15Callbacks) + 2*len(c15Preds) + 2*len(c15Folds) + 17 }
 
 var c15Pool = []interface{}{1.0, 2.0, 2.0, 3.0, -1.0, 0.5, "1", "a", "a", "", true, false, A{1.0}, A{1.0}, A{A{1.0}}, A{}, O{"a": 1.0}, O{"a": 1.0}, O{"a": "1"}, O{}, 1e21,
 	// zero with and without sign inside containers (equal by value)
